@@ -74,7 +74,30 @@ func buildRouter(defs []refmodel.RouteDef, rec *hitRec, opts ...func(*rux.Router
 }
 
 // registration APIs a route can come in through
-var regAPIs = []string{"Add", "AddRoute(NewRoute)", "AddNamed", "NewRoute.AttachTo", "method-helper", "WithOptions-then-Add"}
+var regAPIs = []string{"Add", "AddRoute(NewRoute)", "AddNamed", "NewRoute.AttachTo", "method-helper", "WithOptions-then-Add", "Group(split)"}
+
+// splitForGroup cuts a pattern at its last '/' that lies outside braces and brackets: ("/a/{x}", "/b") for "/a/{x}/b".
+// ok is false when there is no such cut with a non-empty prefix and a non-empty remainder.
+func splitForGroup(path string) (prefix, rest string, ok bool) {
+	depth := 0
+	cut := -1
+	for i := 0; i < len(path); i++ {
+		switch path[i] {
+		case '{', '[':
+			depth++
+		case '}', ']':
+			depth--
+		case '/':
+			if depth == 0 && i > 0 {
+				cut = i
+			}
+		}
+	}
+	if cut <= 0 || cut == len(path)-1 {
+		return "", "", false
+	}
+	return path[:cut], path[cut:], true
+}
 
 // buildRouterVia registers route i through the API named via[i] ("" = Add). "method-helper" uses r.GET / r.POST ... per
 // method (one registration per method: only for single-method routes, else Add); "WithOptions-then-Add" applies the
@@ -132,6 +155,13 @@ func registerInto(r0 *rux.Router, defs []refmodel.RouteDef, via []string, routeM
 			case "NewRoute.AttachTo":
 				rt = rux.NewNamedRoute(fmt.Sprintf("n%d", i), d.Path, h, d.Methods...)
 				rt.AttachTo(r)
+			case "Group(split)":
+				// the same pattern spelled as a group prefix plus a route path (the prefix may hold variables)
+				if pre, rest, ok := splitForGroup(d.Path); ok {
+					r.Group(pre, func() { rt = r.Add(rest, h, d.Methods...) })
+				} else {
+					rt = r.Add(d.Path, h, d.Methods...)
+				}
 			case "method-helper":
 				if len(d.Methods) == 1 {
 					switch d.Methods[0] {
